@@ -187,6 +187,23 @@ type vc19Step struct {
 	NWritten []int      `json:"nwritten"`
 	Q        []vc19QObs `json:"q"`
 	Ph       []string   `json:"ph"` // per phantom: "true" | "false" | "panic:..."
+	// the settings the manager holds after the step (exported fields of its RegConfig), rendered as TOML values
+	Keys map[string]string `json:"keys"`
+}
+
+func vc19Keys(rc *RegConfig) map[string]string {
+	return map[string]string{
+		"enable_v4":                     fmt.Sprint(rc.EnableIPv4),
+		"enable_v6":                     fmt.Sprint(rc.EnableIPv6),
+		"ingest_worker_count":           fmt.Sprint(rc.IngestWorkerCount),
+		"enable_share_over_api":         fmt.Sprint(rc.EnableShareOverAPI),
+		"preshare_endpoint":             fmt.Sprintf("%q", rc.PreshareEndpoint),
+		"covert_blocklist_public_addrs": fmt.Sprint(rc.CovertBlocklistPublicAddrs),
+		"covert_blocklist_subnets":      fmt.Sprintf("%q", rc.CovertBlocklistSubnets),
+		"covert_allowlist_subnets":      fmt.Sprintf("%q", rc.CovertAllowlistSubnets),
+		"covert_blocklist_domains":      fmt.Sprintf("%q", rc.CovertBlocklistDomains),
+		"phantom_blocklist":             fmt.Sprintf("%q", rc.PhantomBlocklist),
+	}
 }
 
 type vc19Res struct {
@@ -325,6 +342,7 @@ func vc19Run(c vc19Case, dir string, stub *vc19Stub) (r vc19Res) {
 		}
 		if rm != nil {
 			st.Q, st.Ph = vc19Observe(rm, written, c)
+			st.Keys = vc19Keys(rm.RegConfig)
 		}
 		r.Steps = append(r.Steps, st)
 		if rm == nil || st.Parse == "panic" {
